@@ -8,6 +8,7 @@
 //!   execute(&Value) -> String                    runs the implementation, returns a Gallina case
 //! With `--inputs FILE` (JSON lines) the generator is skipped: replay / corpus.
 mod c03;
+mod c14;
 mod c15;
 mod c17;
 mod c19;
@@ -36,6 +37,7 @@ pub struct PropModule {
 
 fn module(prop: &str) -> PropModule {
     match prop {
+        "C14" => c14::module(),
         "C15" => c15::module(),
         "C03" => c03::module(),
         "C17" => c17::module(),
